@@ -388,6 +388,8 @@ type echCall struct {
 	ended    bool
 	outcome  string // what the stub did: ok, error, hang, reject_retry, reject_noretry, cancelled
 	retry    []byte
+	hasDL    bool
+	dl       int64 // deadline of the call's context, relative to t0
 }
 
 type echState struct {
@@ -409,6 +411,9 @@ func (es *echState) dialFunc(p *EchPlan) func(context.Context, string, string, *
 			c := &echCall{ip: ip, addr: addr, tc: tc}
 			c.seq = es.rs.seq.Add(1)
 			c.t = int64(time.Since(es.rs.t0))
+			if dl, ok := ctx.Deadline(); ok {
+				c.hasDL, c.dl = true, int64(dl.Sub(es.rs.t0))
+			}
 			if tc != nil {
 				// a zero-length list is no list (crypto/tls cannot use it either)
 				c.listNil = len(tc.EncryptedClientHelloConfigList) == 0
@@ -598,8 +603,58 @@ func executeEch(t *testing.T, prop string, seed uint64, p *EchPlan) *core.Result
 			resolverFault = true
 		}
 	}
+	if prop == "C18" {
+		// C18 looks at these runs for one thing only: an attempt - the retry
+		// after an ECH rejection included - is bounded by Timeout. (The log
+		// digest, signature and arbitration are those of the C17 judgement.)
+		tmp := &core.Result{}
+		judgeEch(tmp, "C17", p, es, caller, before, retConn, retErr, retSeq, retT, len(up.queries), resolverFault || len(p.Zone.Fail) > 0)
+		res.LogHash, res.Sig, res.Arbitrated, res.NonTrivial, res.Sample = tmp.LogHash, tmp.Sig, tmp.Arbitrated, tmp.NonTrivial, tmp.Sample
+		judgeEchTimeouts(res, prop, es, timeout, retT)
+		return res
+	}
 	judgeEch(res, prop, p, es, caller, before, retConn, retErr, retSeq, retT, len(up.queries), resolverFault || len(p.Zone.Fail) > 0)
 	return res
+}
+
+// judgeEchTimeouts: every DialFunc call of an attempt - the second one after an
+// ECH rejection with retry configs too - runs under the deadline
+// "start of the attempt + Timeout".
+func judgeEchTimeouts(res *core.Result, prop string, es *echState, timeout int64, retT int64) {
+	es.mu.Lock()
+	calls := append([]*echCall(nil), es.calls...)
+	es.mu.Unlock()
+	first := map[string]*echCall{}
+	for _, c := range calls {
+		if c.n == 0 {
+			first[c.addr] = c
+		}
+	}
+	for _, c := range calls {
+		f := first[c.addr]
+		if f == nil {
+			continue
+		}
+		what := "attempt"
+		if c.n > 0 {
+			what = "retry after ECH rejection"
+			res.Probe("retry_under_attempt_deadline")
+		}
+		switch {
+		case !c.hasDL:
+			res.Fail(prop, "timeout", "attempt context has no deadline ("+what+")", "address %s call #%d", c.addr, c.n)
+		case c.dl > f.t+timeout:
+			res.Fail(prop, "timeout", "attempt deadline beyond start+Timeout ("+what+")", "address %s call #%d: attempt started %v, this call %v, deadline %v, Timeout %v", c.addr, c.n, time.Duration(f.t), time.Duration(c.t), time.Duration(c.dl), time.Duration(timeout))
+		case c.dl < f.t+timeout:
+			res.Fail(prop, "timeout", "attempt deadline earlier than start+Timeout ("+what+")", "address %s call #%d: attempt started %v, deadline %v, Timeout %v", c.addr, c.n, time.Duration(f.t), time.Duration(c.dl), time.Duration(timeout))
+		}
+		if c.ended && c.outcome == "hang" && c.endT > f.t+timeout {
+			res.Fail(prop, "timeout", "attempt context still live after start+Timeout ("+what+")", "address %s call #%d: attempt started %v, context ended %v", c.addr, c.n, time.Duration(f.t), time.Duration(c.endT))
+		}
+		if c.ended && c.outcome == "hang" && c.endT == f.t+timeout && c.endT <= retT {
+			res.Probe("attempt_timeout")
+		}
+	}
 }
 
 var debugCanon func([]string)
